@@ -840,8 +840,10 @@ Subroutine.__module__ = "pyteal"
 @contextmanager
 def _frame_pointer_context(proto: Proto | None):
     tmp, SubroutineEval._current_proto = SubroutineEval._current_proto, proto
-    yield proto
-    SubroutineEval._current_proto = tmp
+    try:
+        yield proto
+    finally:
+        SubroutineEval._current_proto = tmp
 
 
 @dataclass
